@@ -14,6 +14,7 @@ import (
 )
 
 // a hashed file name as esbuild writes it: 8 characters of base32 after '-', '.' or '/'
+var reImportSpec = regexp.MustCompile(`(?:\bfrom|\bimport)\s*\(?\s*"[^"\n]*"`)
 var reHashName = regexp.MustCompile(`[A-Za-z0-9_./-]*[-./][A-Z2-7]{8}[A-Za-z0-9_.-]*`)
 
 func init() { scenarios["C18"] = scenarioC18 }
@@ -145,10 +146,18 @@ func scenarioC18(rc *RunCtx) *Violation {
 		where   string
 	}
 	table := map[string]seen{}
+	byBase := map[string]string{} // base name of every hashed output seen so far -> content
+	prevOf := map[string]string{} // path -> content in the first build that emitted it (all outputs, for the companion rule)
 	var hist []string
 	check := func(r *BuildRec, label string) *Violation {
 		if !buildOK(r.Res) {
 			return nil
+		}
+		for _, f := range r.Res.OutputFiles {
+			rel := stripRoot(f.Path, r.Model.Root)
+			if _, ok := prevOf[rel]; !ok {
+				prevOf[rel] = string(f.Contents)
+			}
 		}
 		for _, f := range r.Res.OutputFiles {
 			rel := stripRoot(f.Path, r.Model.Root)
@@ -160,9 +169,35 @@ func scenarioC18(rc *RunCtx) *Violation {
 			if prev, ok := table[rel]; ok {
 				if prev.content != c {
 					key := path.Ext(rel)
-					if permutedRefsOnly(prev.content, c) {
-						// the two contents differ only in which hashed file is referenced where
+					curByBase := map[string]string{}
+					for _, f2 := range r.Res.OutputFiles {
+						curByBase[path.Base(f2.Path)] = string(f2.Contents)
+					}
+					if explainedByPermutation(prev.content, c, byBase, curByBase, 0) {
+						// the two contents differ only in which emitted file is referenced where, or
+						// only in the names of referenced files whose own contents differ only in that way
 						key += ":only-references-permuted"
+					} else if strings.HasSuffix(rel, ".map") {
+						// the source map of a file that collides in that way collides with it
+						js := strings.TrimSuffix(rel, ".map")
+						for _, f2 := range r.Res.OutputFiles {
+							if stripRoot(f2.Path, r.Model.Root) == js {
+								if pj, ok := table[js]; ok && explainedByPermutation(pj.content, string(f2.Contents), byBase, curByBase, 0) {
+									key += ":only-references-permuted"
+								} else if pm, ok := prevOf[js]; ok && explainedByPermutation(pm, string(f2.Contents), byBase, curByBase, 0) {
+									key += ":only-references-permuted"
+								}
+							}
+						}
+					}
+					if debugOn {
+						fmt.Printf("=== %s PREV (%s)\n%s\n=== CUR\n%s\n", rel, prev.where, prev.content, c)
+						for _, n := range reHashName.FindAllString(c, -1) {
+							fmt.Printf("=== referenced (cur) %s\n%s\n", n, curByBase[path.Base(n)])
+						}
+						for _, n := range reHashName.FindAllString(prev.content, -1) {
+							fmt.Printf("=== referenced (prev) %s\n%s\n", n, byBase[path.Base(n)])
+						}
 					}
 					return &Violation{Class: "same-path-different-bytes", Key: key,
 						Detail: fmt.Sprintf("%s build of step %d emits %s with %d bytes, %s emitted the same path with %d different bytes (%s); option changes: %v; history: %s",
@@ -171,6 +206,7 @@ func scenarioC18(rc *RunCtx) *Violation {
 				rc.Probe("hashed_path_seen_again_same_bytes")
 			} else {
 				table[rel] = seen{c, fmt.Sprintf("the %s build of step %d", label, r.Step)}
+				byBase[path.Base(rel)] = c
 			}
 		}
 		if v := CheckRefs(rc, r, o, label); v != nil {
@@ -239,19 +275,65 @@ func scenarioC18(rc *RunCtx) *Violation {
 	return nil
 }
 
-// permutedRefsOnly: a and b are equal once every hashed file name is blanked, and they
-// mention the same multiset of hashed names (i.e. only the positions of the references
-// to other hashed outputs differ).
+// permutedRefsOnly: a and b are equal once every import specifier (the string after
+// `from`, `import` or `import(`) and every hashed file name is blanked, and they mention the
+// same multiset of specifiers - i.e. the two contents differ only in which emitted file is
+// referenced at which position.
 func permutedRefsOnly(a, b string) bool {
 	if a == b {
 		return false
 	}
 	blank := func(s string) (string, []string) {
-		names := reHashName.FindAllString(s, -1)
+		var names []string
+		s = reImportSpec.ReplaceAllStringFunc(s, func(m string) string {
+			i := strings.IndexByte(m, '"')
+			names = append(names, m[i:])
+			return m[:i] + "#"
+		})
+		names = append(names, reHashName.FindAllString(s, -1)...)
 		sort.Strings(names)
 		return reHashName.ReplaceAllString(s, "#"), names
 	}
 	ba, na := blank(a)
 	bb, nb := blank(b)
 	return ba == bb && strings.Join(na, ",") == strings.Join(nb, ",") && len(na) >= 2
+}
+
+// explainedByPermutation: the difference between the old and the new content of one path is a
+// consequence of the recorded finding C18-F2 (which file is referenced at which position
+// is not part of the content hash): either the references are merely permuted, or the two
+// contents are equal up to the NAMES of referenced hashed files and, for every name that
+// changed, the old and the new file of that name differ - recursively - only in this way
+// (their isolated hashes are then equal, so the importer's hash could not change). A
+// referenced file whose real content changed is never explained.
+func explainedByPermutation(a, b string, oldByBase, newByBase map[string]string, depth int) bool {
+	if permutedRefsOnly(a, b) {
+		return true
+	}
+	if a == b {
+		// a referenced file that was renamed although not one byte of it changed (its final
+		// hash also depends on the order in which the chunks happen to be numbered)
+		return depth > 0
+	}
+	if depth > 4 {
+		return false
+	}
+	na := reHashName.FindAllString(a, -1)
+	nb := reHashName.FindAllString(b, -1)
+	if len(na) != len(nb) || len(na) == 0 || reHashName.ReplaceAllString(a, "#") != reHashName.ReplaceAllString(b, "#") {
+		return false
+	}
+	changed := 0
+	for i := range na {
+		if na[i] == nb[i] {
+			continue
+		}
+		changed++
+		oc, ok1 := oldByBase[path.Base(na[i])]
+		nc, ok2 := newByBase[path.Base(nb[i])]
+		if !ok1 || !ok2 || !explainedByPermutation(oc, nc, oldByBase, newByBase, depth+1) {
+			return false
+		}
+	}
+	return changed > 0
 }
